@@ -1484,7 +1484,7 @@ def many_cases(tier):
 
 def hist_cases(tier, S):
     thorough = tier == "thorough"
-    core = [["sorted"], ["perm", "rev"], ["mask", "minus"], ["clip"], ["extend", 2], ["merged"], ["windows", 1]]
+    core = [["extend", 2], ["sorted"], ["perm", "rev"], ["mask", "minus"], ["clip"], ["merged"], ["windows", 1]]
     more = [["perm", "rot"], ["perm", "evenodd"], ["mask", "even"], ["mask", "odd"], ["slice"], ["concat"], ["extend", 1], ["extend", S + 1],
             ["windows", 0]]
     firsts = core + more
